@@ -644,7 +644,14 @@ class TCPHiddenServiceEndpoint(object):
                         group_readable=self.group_readable,
                         version=self.version,
                     )
-            self.hiddenservice = yield create_d
+            try:
+                self.hiddenservice = yield create_d
+            except Exception:
+                # the service could not be created: do not keep the
+                # local listener open
+                yield self.tcp_listening_port.stopListening()
+                self.tcp_listening_port = None
+                raise
 
         else:
             if not self.ephemeral:
